@@ -86,7 +86,9 @@ class Local(Backend):
 
         try:
             scandir = os.scandir(absolute_dirname)
-        except OSError:
+        except (FileNotFoundError, NotADirectoryError):
+            # Nothing has been stored under this prefix yet. Any other error must not
+            # be mistaken for an empty listing (clean would delete every chunk)
             logger.debug(f'Unable to list files in {absolute_dirname}', exc_info=True)
             return
 
